@@ -148,7 +148,8 @@ def run(ck: Check):
     terms = [case_term(r) for r in results]
     bad = ck.coq_eval("inj", HEADER, terms, "inj_case", "check_inj", shard=120)
     ck.run_fixed({"inject_across_short_lived_contexts": "C19:differs-from-explicit-lookup",
-                  "overlapping_injected_calls": "C19:overlapping-calls-mixed-up"})
+                  "overlapping_injected_calls": "C19:overlapping-calls-mixed-up",
+                  "caller_names_injected_parameter": "C19:arguments-changed"})
     sigs, n_fail = {}, 0
     for r in results:
         for sig, what in oracle(r):
